@@ -484,6 +484,14 @@ impl<T: Eq + Hash> FrequentItemsSketch<T> {
         if lg_cur > lg_max {
             return Err(Error::deserial("lg_cur_map_size exceeds lg_max_map_size"));
         }
+        // The maximum map size and its capacity must be representable, as `new` requires.
+        if 1usize
+            .checked_shl(u32::from(lg_max))
+            .and_then(|size| size.checked_mul(LOAD_FACTOR_NUMERATOR))
+            .is_none()
+        {
+            return Err(Error::deserial("lg_max_map_size is too large"));
+        }
 
         let is_empty = (flags & EMPTY_FLAG_MASK) != 0;
         if is_empty {
